@@ -115,7 +115,7 @@ func c12Body(r *Run) {
 	if err == nil {
 		if last.failed {
 			r.Fail("C12.R7", "Retry returned success although the last attempt failed", "attempts=%d", n)
-		} else if len(outs) != len(last.outs) || (len(outs) > 0 && outs[0] != last.outs[0]) {
+		} else if len(outs) != len(last.outs) || (len(outs) > 0 && outs[0] != last.outs[0] && outs[0].UUID != last.outs[0].UUID) {
 			r.Fail("C12.R1", "Retry did not return the outputs of the first successful attempt", "got %d outputs", len(outs))
 		}
 	} else {
@@ -125,18 +125,30 @@ func c12Body(r *Run) {
 			r.Fail("C12.R5", "Retry did not return the last attempt's error", "returned %q, last attempt's error %q", err, last.err)
 		}
 	}
-	// ctx end: explicit cancel or MaxElapsedTime after the first failure
+	// ctx end: explicit cancel or MaxElapsedTime. Where the MaxElapsedTime clock starts is not stated: somewhere between
+	// the invocation of the middleware (earliest end: used where giving up must be justified) and the end of the first
+	// attempt (latest end: used where going on must be justified).
 	ctxEnd := time.Duration(math.MaxInt64)
+	ctxEndEarliest := time.Duration(math.MaxInt64)
 	if cancelledAt >= 0 {
-		ctxEnd = cancelledAt
+		ctxEnd, ctxEndEarliest = cancelledAt, cancelledAt
 	}
 	if cfg.MaxElapsedTime > 0 && attempts[0].failed {
 		if e := attempts[0].end + cfg.MaxElapsedTime; e < ctxEnd {
 			ctxEnd = e
 		}
+		// giving up is also justified when the limit would pass before the next retry could start
+		nextWait := float64(cfg.InitialInterval) * math.Pow(cfg.Multiplier, float64(n-1))
+		if nextWait > float64(cfg.MaxInterval) {
+			nextWait = float64(cfg.MaxInterval)
+		}
+		nextWait *= 1 + cfg.RandomizationFactor
+		if e := attempts[0].start + cfg.MaxElapsedTime - time.Duration(nextWait) - time.Microsecond; e < ctxEndEarliest {
+			ctxEndEarliest = e
+		}
 	}
 	// completeness: when nothing ended the context, a failing handler is retried MaxRetries times
-	if last.failed && ctxEnd > retAt && n != 1+cfg.MaxRetries {
+	if last.failed && ctxEndEarliest > retAt && n != 1+cfg.MaxRetries {
 		r.Fail("C12.R2", "Retry gave up before MaxRetries although neither the context ended nor MaxElapsedTime passed", "%d attempts, MaxRetries=%d, returned at %v", n, cfg.MaxRetries, retAt)
 	}
 	// R3 back-off lower bound, closed form
@@ -174,7 +186,9 @@ func c12Body(r *Run) {
 			failedRetries++
 		}
 	}
-	if len(hooks) != retries && len(hooks) != failedRetries {
+	// (the hook may be called when a retry is scheduled or after it failed: between one call per failed retry and one per
+	// scheduled retry, the last of which may have been abandoned while waiting)
+	if len(hooks) < failedRetries || len(hooks) > retries+1 {
 		r.Fail("C12.R4", "OnRetryHook was not called once per (failed) retry", "hooks=%v retries=%d failedRetries=%d", hooks, retries, failedRetries)
 	}
 	if ctxEnd < retAt && last.failed {
